@@ -299,7 +299,16 @@ def main():
             smallscope19(2 if tier == "quick" else 3)
         if prop == "C18":
             smallscope(3 if tier == "quick" else 4)
-        if tier == "quick":
+        if tier == "quick" and os.environ.get("VERIF_STOP_EARLY"):
+            # (sensitivity tooling only: the same stages in the same order, cut short at the first stage that
+            # reports something - a changed tree that is caught at once need not be explored to the end)
+            lo = 0
+            while lo < n_quick and not agg.violations and not agg.harness:
+                swarm(lo, min(n_quick, lo + 1500))
+                lo += 1500
+            if not agg.violations and not agg.harness:
+                sweeps(0, n_sweep, {"crash_limit": 120, "fault_limit": 100})
+        elif tier == "quick":
             swarm(0, n_quick)
             sweeps(0, n_sweep, {"crash_limit": 120, "fault_limit": 100})
         else:
